@@ -803,6 +803,7 @@ def check_mutation_history(ck, case, st, lon, lat, table, rule, default_rule, in
     g = build_grid(lon, lat, table)
     fa_valid = True          # face_areas comparable: not edited in place, not cached before a coordinate change
     fa_cached = False
+    coords_replaced = False
     done = []
     try:
         for op in tmpl:
@@ -810,6 +811,8 @@ def check_mutation_history(ck, case, st, lon, lat, table, rule, default_rule, in
             if op[0] in ("compute", "compute_mut"):
                 a = args_of(op[1])
                 r = g.compute_face_areas(*a)
+                if coords_replaced and not a[2]:
+                    continue              # node_x/y/z derived BEFORE the lon/lat replacement are not claimed here (C04/C08)
                 want = fresh(a)
                 if not (np.array_equal(np.asarray(r[0]), want[0]) and np.array_equal(np.asarray(r[1]), want[1])):
                     ck.fail("cache", case, dict(info0, what="compute_face_areas depends on the history", history="in-place edits / setters"),
@@ -843,6 +846,7 @@ def check_mutation_history(ck, case, st, lon, lat, table, rule, default_rule, in
                 cur["lon"] = [((x + 11.0 + 180.0) % 360.0) - 180.0 for x in cur["lon"]]
                 g.node_lon = xr.DataArray(np.array(cur["lon"], dtype=float), dims=["n_node"])
                 g.node_lat = xr.DataArray(np.array(cur["lat"], dtype=float), dims=["n_node"])
+                coords_replaced = True
                 if fa_cached:
                     fa_valid = False      # a face_areas cached BEFORE the coordinates were replaced is not claimed here
         st.count("mutation_history", " ".join(o[0] for o in tmpl)[:60])
